@@ -47,6 +47,13 @@ def name_call(E, n, st, name):
     if name == "next" and n.args and isinstance(n.args[0], ast.GeneratorExp):
         from . import loops
         yield from loops.next_first(E, n, st); return
+    if name in reg.classes and (name + ".__init__") in reg.contracts:
+        for s1, av in evargs(E, n, st):
+            if isinstance(av, Exc): yield s1, av; continue
+            obj = E.alloc(s1, RefT(name), "new_" + name)
+            for s2, r in apply_contract(E, reg.contracts[name + ".__init__"], obj, av[0], av[1], s1, n):
+                yield s2, (r if isinstance(r, Exc) else obj)
+        return
     if name in reg.contracts:
         for s1, av in evargs(E, n, st):
             if isinstance(av, Exc): yield s1, av; continue
@@ -106,6 +113,8 @@ def name_call(E, n, st, name):
 def decl_local_type(E, n):
     """Type of an empty-container display assigned to a local: taken from the contract's `locals` by line target."""
     tgt = getattr(n, "_assign_target", None)
+    if tgt == "@return" and E.cur_contract.returns:
+        return E.ptype(E.cur_contract.returns)
     if tgt and tgt in E.cur_contract.locals:
         return E.ptype(E.cur_contract.locals[tgt])
     raise Unsupported("empty container at line %s needs a declared local type" % n.lineno)
@@ -200,13 +209,12 @@ def module_func(E, n, st, mod, name, args, kw):
             # trusted: the set of nodes reachable from `source` by >=1 edges  (Desc \ {source} unless on a cycle)
             ct, ed = E.edges_of(st, g); e, nodes = E.set_of(st, g)
             src = E.coerce(args[1], ct.elem).v
-            D = E.desc_fun(ct.elem)
-            r = E.alloc(st, SetT(ct.elem), "desc")
-            x = E.fresh("x", ct.elem.sort)
-            reach = D(ed, src)
-            E.put_set(st, r, reach_strict(E, st, ct.elem, ed, src))
-            E.desc_axioms(st, ct.elem, ed, nodes, src)
-            yield st, r; return
+            def mk(s):
+                r = E.alloc(s, SetT(ct.elem), "desc")
+                E.put_set(s, r, reach_strict(E, s, ct.elem, ed, src))
+                E.desc_axioms(s, ct.elem, ed, nodes, src)
+                return r
+            yield from E.fork_exc(st, nodes[src], mk, "NetworkXError", n); return
         if name == "topological_sort":
             raise Unsupported("nx.topological_sort is only supported through a contract")
     raise Unsupported("module function %s.%s at line %s" % (mod, name, n.lineno))
@@ -374,7 +382,10 @@ def container_method(E, n, st, recv, m, args, kw):
         if m == "remove_nodes_from":
             # silently ignores absent nodes
             xs = args[0]
-            if isinstance(xs.ty, SetVT): rm = xs.v
+            if isinstance(xs.ty, SetVT) and xs.ty.elem is NODE and ct.elem is RNODE:
+                y = E.fresh("y", es); rm = E.fresh("rmset", z3.ArraySort(es, B))
+                st.pc.append(z3.ForAll([y], rm[y] == z3.And(T.RNode.is_nd(y), xs.v[T.RNode.nd_node(y)])))
+            elif isinstance(xs.ty, SetVT): rm = xs.v
             else:
                 ctx = E.content_type(xs) if xs.ty.sort == Ref else None
                 if isinstance(ctx, (SetT, DictT)): _, rm = E.set_of(st, xs)
@@ -392,16 +403,20 @@ def container_method(E, n, st, recv, m, args, kw):
             x = E.coerce(args[0], ct.elem).v
             od = z3.Function("out_degree_" + T._sname(es), ed.sort(), es, I)
             b = E.fresh("b", es)
-            st.pc.append(od(ed, x) >= 0)
-            st.pc.append((od(ed, x) == 0) == z3.Not(z3.Exists([b], ed[x][b])))
-            yield st, SV(od(ed, x), INT); return
+            def mk(s):
+                s.pc.append(od(ed, x) >= 0)
+                s.pc.append((od(ed, x) == 0) == z3.Not(z3.Exists([b], ed[x][b])))
+                return SV(od(ed, x), INT)
+            yield from E.fork_exc(st, nodes[x], mk, "NetworkXError", n); return
         if m == "degree":
             x = E.coerce(args[0], ct.elem).v
             dg = z3.Function("degree_" + T._sname(es), ed.sort(), es, I)
             b = E.fresh("b", es)
-            st.pc.append(dg(ed, x) >= 0)
-            st.pc.append((dg(ed, x) == 0) == z3.Not(z3.Exists([b], z3.Or(ed[x][b], ed[b][x]))))
-            yield st, SV(dg(ed, x), INT); return
+            def mk(s):
+                s.pc.append(dg(ed, x) >= 0)
+                s.pc.append((dg(ed, x) == 0) == z3.Not(z3.Exists([b], z3.Or(ed[x][b], ed[b][x]))))
+                return SV(dg(ed, x), INT)
+            yield from E.fork_exc(st, nodes[x], mk, "NetworkXError", n); return
     raise Unsupported("method %s on %s at line %s" % (m, recv.ty, getattr(n, "lineno", "?")))
 
 
